@@ -137,9 +137,9 @@ def oracle(ctx, obs, spans, windows):
                 ctx.violation("S5", f"spectrum/rate/HOM call panics on a successfully constructed setup: {msg[:120]} at {calls.get('loc')}",
                               {"kind": "calls_panic", "site": site_function(spans, calls.get("loc", "")), "cause": cause}, dict(detail, calls=calls))
             elif calls["inside_window"] and calls["nonfinite"]:
-                cause = "all_zero_jsa" if calls.get("jsa_all_zero") else "other"
+                cause = "all_zero_jsa" if calls.get("jsa_all_zero") else ("zero_coincidence_counts" if f64_of_hex(calls["cc"]) == 0.0 else "other")
                 ctx.violation("S5", f"non-finite {calls['nonfinite']} from a successfully constructed setup on an in-window grid"
-                              + (" (the JSA is identically 0 on the grid: 0/0 in the rate normalisation)" if cause == "all_zero_jsa" else ""),
+                              + (" (the coincidence JSA integrates to 0 on the grid: 0/0 in the rate normalisation)" if cause != "other" else ""),
                               {"kind": "calls_nonfinite", "what": ",".join(calls["nonfinite"]), "cause": cause}, dict(detail, calls=calls))
 
 
